@@ -1,5 +1,5 @@
 ---------------------------- MODULE MC_Summon ----------------------------
-EXTENDS Summon, Json
+EXTENDS Summon, Json, Sequences
 \* Model-checking harness for Summon: edge export for the replay driver.
 
 StateRec(a, b, c, d, e, f, g, h, i, j, k, l, m, n, o) ==
@@ -14,4 +14,7 @@ ExportEdge ==
                  act |-> last',
                  to |-> StateRec(pc', w', seen', ret', ctxc', calls', slotmap', nobj', ready', count', mu', parked', smap', ninst', ist'),
                  twolive |-> (Cardinality(LiveIn(ist')) > 1)]))
+\* symmetry reduction for the export: summoners make their first call in the order s1, s2, ...
+Rank(p) == CHOOSE i \in 1..Cardinality(Procs) : p = "s" \o ToString(i)
+OrderedStarts == (last'.a = "Start" /\ calls'[last'.p] = 1) => \A q \in Procs : Rank(q) < Rank(last'.p) => calls[q] > 0
 =============================================================================
